@@ -10,6 +10,20 @@ use vcore::thread::{ExecConfig, run_threads};
 
 fn main() {
     vcore::thread::quiet_worker_panics();
+    if std::env::args().any(|a| a == "--watchdog-test") {
+        // A worker that blocks outside the engine must end the process with
+        // exit code 2 (machinery), never hang: run with VERIF_THREAD_WATCHDOG_S=1.
+        let mut ch = Chooser::new(vec![]);
+        let _ = run_threads(
+            &mut ch,
+            vec![
+                Box::new(|| std::thread::sleep(std::time::Duration::from_secs(3600))) as vcore::thread::Body<()>,
+                Box::new(|| anda_db_utils::verif::point("x")),
+            ],
+            ExecConfig::default(),
+        );
+        unreachable!("watchdog did not fire");
+    }
     if let Err(e) = vcore::thread::selftest() {
         vcore::report::machinery(&format!("THREAD selftest failed: {e}"));
     }
